@@ -246,7 +246,7 @@ struct Shrinker {
 	bool fails(const Plan &p) {
 		if (execs >= budget) return false;
 		++execs;
-		Result r = exec_child(w, p, 20);
+		Result r = exec_child(w, p, 6);
 		return r.sig == sig;
 	}
 	bool ddmin_ops(Plan &p) {
@@ -392,7 +392,7 @@ static bool flag(int argc, char **argv, const char *name) {
 
 static int finish_violation(World &w, Plan &p, const Result &first, const char *out, unsigned budget) {
 	// gate 1: same plan twice gives same signature and hash
-	Result r1 = exec_child(w, p, 30), r2 = exec_child(w, p, 30);
+	Result r1 = exec_child(w, p, 12), r2 = exec_child(w, p, 12);
 	if (r1.sig != r2.sig || r1.hash != r2.hash || r1.sig.empty()) {
 		printf("NONDET first=%s again=%s/%s hash %016llx/%016llx\n", first.sig.c_str(), r1.sig.c_str(), r2.sig.c_str(),
 		       (unsigned long long) r1.hash, (unsigned long long) r2.hash);
@@ -401,7 +401,7 @@ static int finish_violation(World &w, Plan &p, const Result &first, const char *
 	size_t ops0 = p.ops.size();
 	Shrinker sh(w, r1.sig, budget);
 	sh.run(p);
-	Result rf = exec_child(w, p, 30);
+	Result rf = exec_child(w, p, 12);
 	if (rf.sig != r1.sig) { printf("NONDET shrunk plan lost signature\n"); return 2; }
 	p.expect = rf.sig;
 	char hb[32]; snprintf(hb, sizeof hb, "%016llx", (unsigned long long) rf.hash); p.hash = hb;
@@ -439,7 +439,7 @@ int sim_main(int argc, char **argv) {
 		for (uint64_t k = 0; k < count; ++k, i += stride) {
 			if (budget > 0 && (k & 7) == 0 && now_s() - t0 > budget) break;
 			printf("S %llu\n", (unsigned long long) i);
-			alarm(30);
+			alarm(10);
 			Plan p = make_plan(w, base, i, tier);
 			Result r = run_plan(w, p, false, st);
 			alarm(0);
